@@ -11,8 +11,8 @@ open SamVerif.Backends
 #print axioms i31_roundtrip_iff
 #print axioms i31_roundtrip_partial
 #print axioms strconst_agree_counterexample
-#print axioms strconst_nonascii_witness
-#print axioms strconst_backtick_witness
+#print axioms tsDecode_clean
+#print axioms utf8_roundtrip
 #print axioms strconst_agree_content
 #print axioms strconst_agree_partial
 #print axioms vec_step_sim
@@ -20,4 +20,15 @@ open SamVerif.Backends
 #print axioms vec_agree_counterexample
 #print axioms vec_agree_partial
 #print axioms vec_fail_coincide
+#print axioms capacity_ge_length
+#print axioms reserve_capacity
+#print axioms tsVecEq_spec
+#print axioms vec_eq_refines
+#print axioms vec_eq_agree_counterexample
+#print axioms vec_eq_agree_partial
+#print axioms concat_agree
+#print axioms str_eq_agree
 #print axioms fromInt_agree
+#print axioms wasm_toInt_fromInt
+#print axioms ts_toInt_fromInt
+#print axioms toInt_fromInt
